@@ -752,10 +752,7 @@ fn schedules_from_bdl(bdl: &Data, id_maps: &IdMaps) -> Result<SchedulesDb, Error
             bdl::Schedule::Week(sch) => {
                 let id = id_maps.schedule_week_id(&sch.name)?;
                 let values = match sch.days.len() {
-                    1 => vec![(
-                        id_maps.schedule_day_id(sch.days.first().unwrap()).unwrap(),
-                        7,
-                    )],
+                    1 => vec![(id_maps.schedule_day_id(sch.days.first().unwrap())?, 7)],
                     7 => {
                         let mut res = vec![];
                         let mut current_day_name = sch.days.first().unwrap();
@@ -795,18 +792,28 @@ fn schedules_from_bdl(bdl: &Data, id_maps: &IdMaps) -> Result<SchedulesDb, Error
                             .map(|(day, month)| day_of_year(*day, *month)),
                     )
                     .collect();
-                let day_count = end_day.windows(2).map(|t| t[1] - t[0]);
+                let day_count = end_day
+                    .windows(2)
+                    .map(|t| {
+                        t[1].checked_sub(t[0]).ok_or_else(|| {
+                            format_err!("Fechas no crecientes en el horario anual: {}", sch.name)
+                        })
+                    })
+                    .collect::<Result<Vec<u32>, Error>>()?;
 
-                assert!(
-                    day_count.len() == sch.weeks.len()
-                        && day_count.len() == sch.months.len()
-                        && day_count.len() == sch.days.len()
-                );
+                if !(day_count.len() == sch.weeks.len()
+                    && day_count.len() == sch.months.len()
+                    && day_count.len() == sch.days.len())
+                {
+                    bail!("Longitudes de listas incoherentes en el horario anual: {}", sch.name);
+                }
 
                 let values = sch
                     .weeks
                     .iter()
-                    .map(|name| id_maps.schedule_week_id(name).unwrap())
+                    .map(|name| id_maps.schedule_week_id(name))
+                    .collect::<Result<Vec<Uuid>, Error>>()?
+                    .into_iter()
                     .zip(day_count.into_iter())
                     .collect();
 
